@@ -167,6 +167,10 @@ def same(hz, a, b, opts):
     """-> True / False / z3 formula: same kind and same content"""
     D = hz.datatypes if hasattr(hz, 'datatypes') else sys.modules['hszinc.datatypes']
     Grid = hz.Grid
+    if type(a).__name__ == 'SymBool':
+        a = bool(a)
+    if type(b).__name__ == 'SymBool':
+        b = bool(b)
     if a is None or b is None:
         return a is None and b is None
     for S in (D.MARKER, D.NA, D.REMOVE):
@@ -239,7 +243,8 @@ def same(hz, a, b, opts):
         if not (isinstance(a, dict) and isinstance(b, dict)):
             return False
         ka, kb = list(a.keys()), list(b.keys())
-        if sorted(map(str, ka)) != sorted(map(str, kb)):
+        from . import neutral as _n
+        if sorted(map(_n.plain, ka)) != sorted(map(_n.plain, kb)):      # keys were hashed, so they are pinned on this path
             return False
         return b_and(*[same(hz, a[k], b[k], opts) for k in ka])
     return False
@@ -280,13 +285,15 @@ def same_meta(hz, m1, m2, opts):
 
 
 def same_grid(hz, g1, g2, opts):
-    if str(g1.version) != str(g2.version):
+    v1, v2 = type(g1.version).__str__(g1.version), type(g2.version).__str__(g2.version)
+    vsame = (v1 == v2) if (isinstance(v1, str) and isinstance(v2, str)) else SymStr(v1).eq_term(v2)
+    if vsame is False:
         return False
     if len(g1) != len(g2):
         return False
     if list(g1.column.keys()) != list(g2.column.keys()):
         return False
-    out = [same_meta(hz, g1.metadata, g2.metadata, opts)]
+    out = [vsame, same_meta(hz, g1.metadata, g2.metadata, opts)]
     for c in g1.column.keys():
         out.append(same_meta(hz, g1.column[c], g2.column[c], opts))
     for r1, r2 in zip(g1, g2):
@@ -504,6 +511,12 @@ def catalogue(hz, version, extra=None):
             Z.timezone('Paris').localize(datetime.datetime(2021, 7, 1, 12, 30, 15, 250000)),
             Z.timezone('New_York').localize(datetime.datetime(2021, 1, 1, 23, 59, 59)),
             Z.timezone('Kolkata').localize(datetime.datetime(1999, 12, 31, 23, 59, 59, 1)),
+            datetime.datetime(2020, 1, 15, 12, 0, 0, tzinfo=datetime.timezone(datetime.timedelta(hours=-8))),
+            datetime.datetime(2020, 7, 15, 12, 0, 0, tzinfo=datetime.timezone(datetime.timedelta(hours=-8))),
+            datetime.datetime(2020, 7, 15, 12, 0, 0, tzinfo=datetime.timezone(datetime.timedelta(hours=-7))),
+            datetime.datetime(2020, 1, 15, 12, 0, 0, tzinfo=datetime.timezone(datetime.timedelta(hours=-7))),
+            datetime.datetime(2020, 3, 8, 2, 30, 0, tzinfo=datetime.timezone(datetime.timedelta(hours=-7))),
+            datetime.datetime(2021, 6, 1, 0, 0, 0, tzinfo=datetime.timezone(datetime.timedelta(hours=5, minutes=45))),
             D.Coordinate(37.5, -122.25), D.Coordinate(-90, 180), D.Coordinate(0.123456, 0), D.Coordinate(-0.5, 0.000001),
             D.Ref('a-b.c:d~e_1'), D.Ref('x', 'dis play'), D.Ref('x', ''), D.Bin('text/plain'), D.Uri('http://a/b?c=d&e#f'), D.Uri(''),
             '', 'plain', 'n:1', 'T', '2020-01-01', u'\u20ac\U0001f600']
@@ -596,9 +609,17 @@ def check_concrete(hz, job, value, position):
 
 
 def replay_catalog(hz, job, payload):
-    """payload = [index, position]"""
-    v = catalogue(hz, job['version'], job.get('extra'))[payload[0]]
-    return check_concrete(hz, job, v, payload[1])
+    """payload = [index, position].  The whole catalogue prefix is replayed in the job's order, because a failure may
+    depend on what was dumped or parsed before (process-wide caches)."""
+    skip = set(job.get('skip_types', []))
+    for i, v in enumerate(catalogue(hz, job['version'], job.get('extra'))):
+        if type(v).__name__ in skip:
+            continue
+        for pos in job['positions']:
+            msg = check_concrete(hz, job, v, pos)
+            if i == payload[0] and pos == payload[1]:
+                return msg
+    return None
 
 
 def replay(hz, job, payload):
